@@ -230,6 +230,15 @@ def gen_simplices(rng, n):
                     x = x * (1 + 1e-9)
                 P = P - x
         out.append(P.tolist())
+    # small-integer simplices: the exact zeros of the `>= 0` / `<= 0` / `== 0` tests of the projection trees
+    # (origin exactly on an edge line, in a face plane, at a vertex; collinear and coplanar points)
+    for i in range(n // 2):
+        k = rng.choice([2, 3, 3, 3, 4, 4])
+        P = [[float(rng.choice([-2, -1, -1, 0, 0, 1, 1, 2])) for _ in range(3)] for _ in range(k)]
+        if rng.random() < 0.3:
+            sc = rng.choice([0.5, 0.25, 3.0])
+            P = [[x * sc for x in p] for p in P]
+        out.append(P)
     return out
 
 
@@ -243,7 +252,7 @@ def compare_projections(pid, rng, n, trace_lines=True, tag="projcorr", per_leaf=
     nw_ = 2 if len(simp) > 3000 else 1
     payloads = [dict(simplices=simp[i::nw_], trace_lines=False) for i in range(nw_)]
     if trace_lines:
-        payloads.append(dict(simplices=directed[::3] + simp[:60], trace_lines=True))
+        payloads.append(dict(simplices=directed[::3] + simp[::9], trace_lines=True))
     res = cm.run_impl_parallel(pid, "narrowbproj", payloads, timeout=900, tag="proj")
     impl = [None] * len(simp)
     hits = {}
